@@ -12,6 +12,7 @@ from decimal import Decimal
 from lib import gram, heap, monitors
 
 ID = 'C02'
+TECHNIQUE = 'runtime monitor: type census of every node result (M1+M8) and audit-hook event filter (sys.addaudithook) under a hostile builtin x argument workload'
 RULE = ('(1) every name in the function table x arities 0-4 x argument expressions drawn from a hostile pool (plain scalars, attribute-/format-like '
         'strings, nested and aliased containers, tuples, slices, program lambdas of arity 1-2, the builtin objects themselves), called through eval in '
         'call, method and pipe spelling, plus index/slice/assignment of the result; (2) random derivations of the grammar whose identifiers are builtin '
